@@ -571,6 +571,30 @@ def check_term_classes(prog, rep):
                       f.lineno)
 
 
+def _sign_applied(f):
+    """the sign returned by order_combine_term multiplies the strength that reaches the term
+    adders (in either order, through temporaries)"""
+    nf = inline_temps(f)
+    signs = set()
+    for st in stmts_of(f):
+        if isinstance(st, ast.Assign) and isinstance(st.value, ast.Call) and \
+                call_name(st.value) == 'order_combine_term' and isinstance(st.targets[0], ast.Tuple):
+            signs |= {n.id for n in st.targets[0].elts[1:] if isinstance(n, ast.Name)}
+    for b in ast.walk(nf):
+        if isinstance(b, ast.BinOp) and isinstance(b.op, ast.Mult):
+            names = {n.id for n in ast.walk(b) if isinstance(n, ast.Name)}
+            via_call = any(isinstance(c, ast.Call) and call_name(c) == 'order_combine_term'
+                           for c in ast.walk(b))
+            if (names & signs or via_call) and any('strength' in x for x in names):
+                return True
+    for b in ast.walk(f):
+        if isinstance(b, ast.AugAssign) and isinstance(b.op, ast.Mult) and isinstance(
+                b.target, ast.Name) and 'strength' in b.target.id and \
+                {n.id for n in ast.walk(b.value) if isinstance(n, ast.Name)} & signs:
+            return True
+    return False
+
+
 def check_jw_in_model(prog, rep):
     m = prog.module(MODEL)
     for q, ops in (('CouplingModel.add_coupling', ('op1', 'op2')),
@@ -605,7 +629,7 @@ def check_jw_in_model(prog, rep):
     rep.instance('JW-model', {'function': 'CouplingModel.add_local_term'})
     src = unparse(f)
     if 'order_combine_term' not in src or 'coupling_term_handle_JW' not in src or \
-            'multi_coupling_term_handle_JW' not in src or 'strength * sign' not in src:
+            'multi_coupling_term_handle_JW' not in src or not _sign_applied(f):
         rep.violation('JW-model', m, 'CouplingModel.add_local_term', 'jw-pipeline',
                       'local terms must be ordered with the fermionic sign applied to the strength '
                       'and passed through the JW handlers', f.lineno)
